@@ -30,6 +30,8 @@ def corpus(props=None):
             if meta.get("status") == "rejected":
                 continue
             prop = meta.get("property") or name[:3]
+            if not (isinstance(prop, str) and len(prop) == 3 and prop[0] == "C" and prop[1:].isdigit()):
+                prop = name[:3]          # (a meta file that spells the property out)
             detect = meta.get("detected_by_properties") or [prop]
             out.append({"name": "seeded/" + name, "patch": pf, "props": detect, "kind": "seeded", "primary": prop})
     md = os.path.join(VERIF, "mutants")
